@@ -7,6 +7,9 @@ import time as _time
 
 VERIF = os.path.dirname(os.path.dirname(os.path.abspath(__file__)))
 REPO = os.environ.get("VERIF_REPO", "/repo")
+# evidence/ and replays/ are written below OUT (the self-test redirects them
+# to its scratch directory so that mutant runs never touch /verif/evidence)
+OUT = os.environ.get("VERIF_OUT", VERIF)
 
 EXIT_HELD = 0
 EXIT_VIOLATION = 1
@@ -46,7 +49,7 @@ def load_known_findings(prop):
 
 
 def write_replay(prop, name, payload):
-    d = os.path.join(VERIF, "replays", prop)
+    d = os.path.join(OUT, "replays", prop)
     os.makedirs(d, exist_ok=True)
     path = os.path.join(d, name + ".json")
     with open(path, "w") as f:
@@ -57,7 +60,7 @@ def write_replay(prop, name, payload):
 
 def write_evidence(prop, tier, seed, coverage, wall_s, violations,
                    assumptions, level="exploration"):
-    d = os.path.join(VERIF, "evidence")
+    d = os.path.join(OUT, "evidence")
     os.makedirs(d, exist_ok=True)
     ev = {
         "property_id": prop,
